@@ -37,7 +37,8 @@ example : unescape ("&am".toList ++ "p;".toList) ≠ unescape "&am".toList ++ un
 /-- **once**: for every term of the escaping-neutral fragment (string literals, names, `~`, output, sequencing — which
     is what include / import / inheritance do to bodies —, bound values — macro arguments, `{% set x = e %}`, loop
     variables —, and buffered bodies used as values — macro calls, `caller()`, `super()`, block references, set blocks,
-    call blocks) whose template text is `&`-free, and for every pair of environments related position by position by
+    call blocks, `loop(children)`) and the `join` filter with any mix of plain and Markup delimiter and items (a delimiter
+    that is itself a rendered fragment stays Markup: sync_do_join's third path) whose template text is `&`-free, and for every pair of environments related position by position by
     "escaped exactly once" (`Once`): the value under autoescape is related to the value without, and the text written
     under autoescape has only complete entities and unescapes to exactly the text written without. -/
 theorem once (wrap : List Char → List (List Char)) (t : Tm) (hn : t.neutral = true) (ht : ∀ x ∈ t.texts, '&' ∉ x)
@@ -66,5 +67,15 @@ def exTerm : Tm :=
 example : exTerm.neutral = true ∧
     outOn (fun l => [l]) exTerm [.plain "a<b".toList] = "<p>a&lt;b&amp;</p><p>a&lt;b&amp;</p>&lt;i&gt;".toList ∧
     outOff exTerm ["a<b".toList] = "<p>a<b&</p><p>a<b&</p><i>".toList := by decide +kernel
+
+/-- joining with a delimiter that is a rendered fragment (a set block holding ` {{ s }} `, s = `&`): the delimiter is
+    escaped once, not again at output -/
+def exJoin : Tm :=
+  .bind (.blk (.seq (.text " ".toList) (.seq (.emit (.var 0)) (.text " ".toList))))
+    (.emit (.join (.var 0) (.lit "a<".toList) (.var 1)))
+
+example : exJoin.neutral = true ∧
+    outOn (fun l => [l]) exJoin [.plain "&".toList] = "a&lt; &amp; &amp;".toList ∧
+    outOff exJoin ["&".toList] = "a< & &".toList := by decide +kernel
 
 end JinjaV.C16
